@@ -14,6 +14,7 @@ included), EVERY mix of associativities, EVERY `tryChain : F → F → Option F`
 interpretation `run : F → List V → Out V` of the operators (including failing ones).
 -/
 import NoulithModel.Lemmas.C03Arm
+import NoulithModel.Lemmas.C03ArmS
 import NoulithModel.Lemmas.C03Climb
 import NoulithModel.Generated.C03Tables
 import NoulithModel.Spec.ChainTables
@@ -400,6 +401,59 @@ theorem section_value (op1 : E) (ops : List (E × E)) (acc : List (F × Preceden
 
 end arm
 
+/-! ## 3b. operands with effects: every operator is looked up at its position
+
+`chainArmS` is the arm with an interpreter state threaded through `evaluate` (an operand may
+reassign an operator of its own chain, or its `::precedence`). -/
+
+section armS
+variable {σ E F V : Type} (J : LangS σ E F V)
+
+/-- **each_operator_looked_up_at_its_position**.  A direct chain is the evaluator run on the
+(function, precedence, operand) triples of `resolveOps`: the operator of position `i` is the value
+its expression has in the state left by `e0 f1 e1 … e(i-1)` — after operand `i-1`, before operand
+`i`, evaluated afresh at every position (nothing is carried over from an earlier occurrence of
+the same identifier) — and, by `shunt_valid`, the chain's value is the value of the valid tree over
+THOSE operators.  If a value results, the final state is the one after the last operand. -/
+theorem each_operator_looked_up_at_its_position
+    (hrun2 : ∀ f a b, J.run2 f a b = J.run f [a, b]) (op1 : E) (ops : List (E × E))
+    (s s1 s2 : σ) (v1 : V) (ts : List (F × Precedence × V))
+    (hno : (J.isUnderscore op1 || ops.any (fun p => J.isUnderscore p.2)) = false)
+    (h1 : J.evaluate op1 s = (.ok v1, s1)) (hr : resolveOps J ops s1 = (some ts, s2)) :
+    (chainArmS J op1 ops s).1 = evalChain J.run J.tryChain v1 ts ∧
+    (∀ r, (chainArmS J op1 ops s).1 = .ok r → (chainArmS J op1 ops s).2 = s2) :=
+  chainArmS_resolved J hrun2 op1 ops s s1 s2 v1 ts hno h1 hr
+
+/-- **lookup order = operator order interleaved with operand order**: recording every call of
+`evaluate` in the state, a chain that produces a value has made exactly the calls
+`e0, f1, e1, f2, e2, …` in this order — one lookup per operator position -/
+theorem lookup_order_is_source_order
+    (hrun2 : ∀ f a b, J.run2 f a b = J.run f [a, b]) (op1 : E) (ops : List (E × E))
+    (s s1 s2 : σ) (v1 : V) (ts : List (F × Precedence × V)) (r : V)
+    (hno : (J.isUnderscore op1 || ops.any (fun p => J.isUnderscore p.2)) = false)
+    (h1 : J.evaluate op1 s = (.ok v1, s1)) (hr : resolveOps J ops s1 = (some ts, s2))
+    (hok : (chainArmS J.traced op1 ops (s, [])).1 = .ok r) :
+    (chainArmS J.traced op1 ops (s, [])).2 = (s2, op1 :: ops.flatMap (fun p => [p.1, p.2])) := by
+  have h1' : J.traced.evaluate op1 (s, []) = (.ok v1, (s1, [op1])) := by
+    simp [LangS.traced, h1]
+  have hr' := resolve_traced J ops s1 s2 ts [op1] hr
+  have := (chainArmS_resolved J.traced hrun2 op1 ops (s, []) (s1, [op1])
+    (s2, [op1] ++ ops.flatMap (fun p => [p.1, p.2])) v1 ts hno h1' hr').2 r hok
+  simpa using this
+
+/-- the stateless transcription (sections 3 above) is the special case of an `evaluate` that
+does not depend on the state -/
+theorem stateless_arm_is_special_case (I : Lang E F V) (op1 : E) (ops : List (E × E)) (s : σ) :
+    chainArmS (I.toS (σ := σ)) op1 ops s = ((chainArm I op1 ops).2, s) :=
+  chainArmS_of_pure I op1 ops s
+
+/-- the fast path and the general path agree in the stateful arm too -/
+theorem fast_path_agrees_stateful (hrun2 : ∀ f a b, J.run2 f a b = J.run f [a, b])
+    (op1 oper opd : E) : fastPathS J op1 oper opd = generalPathS J op1 [(oper, opd)] :=
+  fast_path_agrees_S J hrun2 op1 oper opd
+
+end armS
+
 /-! ## 4. `LvalueChainEvaluator` is the same evaluator -/
 
 /-- destructuring chains group exactly like expression chains (C12 uses this) -/
@@ -588,6 +642,42 @@ example : runChainSection exLang none [(104, ⟨.fin 4, .left⟩, some 2)] [7] =
   decide +kernel
 example : runChainSection exLang none [(104, ⟨.fin 4, .left⟩, some 2)] [7, 8] = .throw := by decide +kernel
 example : runChainSection exLang none [(104, ⟨.fin 4, .left⟩, none)] [7] = .throw := by decide +kernel
+/-! the README-style example with an effect: `1 + (+::precedence = 6; 2) + 3 * 4` is
+`1 + ((2 + 3) * 4) = 21` — the state is the precedence of `+`, `*` has 5 -/
+inductive XE where
+  | lit (n : Nat)
+  | litSetPlus (n : Nat) (p : Int)
+  | plus
+  | times
+  deriving DecidableEq
+inductive XV where
+  | num (n : Nat)
+  | fn (isPlus : Bool) (p : Int)
+  deriving DecidableEq
+def xnum : XV → Nat
+  | .num n => n
+  | _ => 0
+def exLangS : LangS Int XE Bool XV where
+  evaluate
+    | .lit n, s => (.ok (.num n), s)
+    | .litSetPlus n p, _ => (.ok (.num n), p)
+    | .plus, s => (.ok (.fn true s), s)
+    | .times, s => (.ok (.fn false 5), s)
+  isUnderscore := fun _ => false
+  asFunc | .fn b p => some (b, ⟨.fin p, .left⟩) | .num _ => none
+  mkSection := fun _ _ => .num 0
+  run := fun f args => .ok (.num (if f then (args.map xnum).sum else (args.map xnum).foldl (· * ·) 1))
+  run2 := fun f a b => .ok (.num (if f then ([a, b].map xnum).sum else ([a, b].map xnum).foldl (· * ·) 1))
+  tryChain := fun _ _ => none
+
+example : chainArmS exLangS (.lit 1) [(.plus, .litSetPlus 2 6), (.plus, .lit 3), (.times, .lit 4)] 4
+    = (.ok (.num 21), 6) := by decide +kernel
+-- without the assignment the same chain is `(1 + 2) + (3 * 4) = 15`
+example : chainArmS exLangS (.lit 1) [(.plus, .lit 2), (.plus, .lit 3), (.times, .lit 4)] 4
+    = (.ok (.num 15), 4) := by decide +kernel
+example : resolveOps exLangS [(.plus, .litSetPlus 2 6), (.plus, .lit 3), (.times, .lit 4)] 4
+    = (some [(true, ⟨.fin 4, .left⟩, .num 2), (true, ⟨.fin 6, .left⟩, .num 3),
+             (false, ⟨.fin 5, .left⟩, .num 4)], 6) := by decide +kernel
 end examples
 
 end Noulith.Chain.C03
